@@ -192,7 +192,7 @@ PROPS["C14"] = dict(PROPS["C13"], driver="c14", require_classes=["hop:second-or-
 PROPS["C15"] = {
     "driver": "c15", "trace_spec": "TraceRedirect",
     "mc_quick": REDIR_MC_Q[:1] + REDIR_MC_Q[4:], "mc_thorough": REDIR_MC_T,
-    "require_classes": ["hop:not-followed", "hop:despite-method", "hop:after-interim-100", "hop:interim-100-surfaced", "hop:to-the-same-uri", "hop:answered-while-awaiting-100"], "require_kinds": ["hop", "landed"],
+    "require_classes": ["hop:not-followed", "hop:despite-method", "hop:after-interim-100", "hop:interim-100-surfaced", "hop:to-the-same-uri", "hop:answered-while-awaiting-100", "hop:chain-in-c15"], "require_kinds": ["hop", "landed"],
     "rule": "one case = one flow: 9 methods x every status 300..399 x both auth policies x with/without response body (3600 flows, all of them in both tiers); "
             "distinct = distinct (method, status)",
     "assumptions": REDIR_ASSUME,
@@ -216,12 +216,12 @@ PROPS["C01"] = {
     "mc_quick": [mc("MCFlow", "MCFlow_quick.cfg", workers=8), mc("MCDechunk", "MCDechunk_q2.cfg", workers=6), mc("MCSendHead", "MCSendHead.cfg"),
                  mc("MCBodyWriter", "MCBodyWriter_chunked_impl.cfg"), mc("MCBodyReader", "MCBodyReader.cfg")],
     "mc_thorough": [mc("MCFlow", "MCFlow_thorough.cfg", workers=16, timeout=3000, heap="16g"), mc("MCDechunk", "MCDechunk_q1.cfg", workers=8), mc("MCSendHead", "MCSendHead.cfg")],
-    "require_kinds": ["run", "outcome"],
+    "require_kinds": ["run", "outcome"], "require_classes": ["c01:gave-up-waiting"],
     "rule": "one case = one request configuration (method, version, framing, Expect, payload size) + one server stream of 1..3 back-to-back responses (optional interim 100, CL / chunked / "
             "close-delimited bodies, 3xx with Location); per case the reference schedule and 45-145 further schedules (single cuts near both ends and random, double cuts, 1-byte arrivals, "
             "send buffers from {one line, one line-1, 1, 6, 7, 11, 64, large}, read buffers from {0,1,2,3,large}, interleaved queries), exchanges continued on the same byte cursor while reusable; "
             "distinct = distinct (method, version, framing, Expect, responses, payload size)",
-    "assumptions": ["the caller waits in Await100 until the server decided or all bytes arrived (giving up earlier changes what is sent, legitimately)",
+    "assumptions": ["the caller waits in Await100 until the server decided or all bytes arrived; it gives up at once only against servers that send their 100 in every exchange (against a server that answers directly, giving up changes what is sent, legitimately)",
                     "arrival points inside a 3xx head after a complete Location line are excluded (owned by C05 / known finding KF1)"],
 }
 
